@@ -36,6 +36,66 @@ def histories(ctx, cfg):
     return out
 
 
+def lifecycle(ctx: Ctx):
+    """Lifecycle.tla: servers and associations of one AE (start_server, server.shutdown, connections, AE.associate, release,
+    AE.shutdown) - the ground the admission rule stands on.  TLC checks the consequences for all short histories and simulates
+    longer ones; they are run on a real AE and Trace_Lifecycle compares, step by step, what a peer sees with Apply().
+    A difference is reported as drift of the life-cycle model (C14's own predicates are judged above)."""
+    import os
+    import threading
+    from lifecycle_lab import LifecycleLab
+    from tlc import read_sim_traces
+    from trace import validate_traces
+
+    thorough = ctx.tier == "thorough"
+    r = must_ok(run_tlc("Lifecycle", "Lifecycle.cfg", workdir=ctx.work, workers=8, timeout=1500))
+    ctx.add_tlc(r)
+    if r.violated:
+        ctx.violation({"where": "model", "invariant": r.violated}, f"Lifecycle.tla violates {r.violated}", r.trace)
+        return
+    sim = os.path.join(ctx.work, "lsim")
+    os.makedirs(sim, exist_ok=True)
+    n = 400 if thorough else 60
+    must_ok(run_tlc("Lifecycle", "Lifecycle_sim.cfg", workdir=ctx.work, workers=1, simulate=f"file={sim}/tr,num={n}", depth=13, seed=ctx.seed + 141))
+    hists = [[dict(o) for o in beh[-1][1]["hist"]] for beh in read_sim_traces(os.path.join(sim, "tr"))]
+    hists = [h for h in hists if h]
+    if len(hists) < n // 2:
+        raise MachineryError(f"only {len(hists)} simulated life-cycle histories read")
+    nthreads = 4
+    outs = [[] for _ in range(nthreads)]
+    errs = []
+
+    def worker(k):
+        lab = LifecycleLab()
+        try:
+            for ops in hists[k::nthreads]:
+                try:
+                    outs[k].append({"ops": ops, "obs": [lab.apply(op) for op in ops]})
+                finally:
+                    lab.reset()
+        except Exception as e:  # noqa: BLE001
+            errs.append(f"{type(e).__name__}: {e}")
+        finally:
+            lab.close()
+
+    ts = [threading.Thread(target=worker, args=(k,)) for k in range(nthreads)]
+    [t.start() for t in ts]
+    [t.join() for t in ts]
+    if errs:
+        raise MachineryError("lifecycle lab: " + errs[0])
+    obs = [o for out in outs for o in out]
+    for k, o in enumerate(obs):
+        o["id"] = k + 1
+    vs = validate_traces(ctx, "Trace_Lifecycle", obs, name="lifecycle", timeout=1800)
+    for o in obs:
+        v, step = vs[o["id"]][0], int(vs[o["id"]][1])
+        ctx.traces += 1
+        ctx.case(("lifecycle", tuple((p["k"], p["x"], p["sv"]) for p in o["ops"])), nontrivial=any(p["k"] in ("aeshutdown", "stop") for p in o["ops"]))
+        if v != "ok":
+            ctx.drifted(f"life-cycle model {v} at step {step} of {[(p['k'], p['x'], p['sv']) for p in o['ops'][:step]]}: a peer sees {o['obs'][step - 1]}")
+    ctx.cov["lifecycle_histories"] = len(obs)
+
+
 def run(ctx: Ctx) -> int:
     warnings.simplefilter("ignore")
     thorough = ctx.tier == "thorough"
@@ -118,6 +178,7 @@ def run(ctx: Ctx) -> int:
                                                                       if h else f"{rec['n']} concurrent requestors: most established at once {o['max_seen']}, accepted {o['accepted']}, reject reasons {o['rejected']}"),
                       {"history": h, "max": rec["max"]} if h else {"stress": o})
     ctx.sample({"history": back[1][0], "steps": back[1][1]["steps"][:6]})
+    lifecycle(ctx)
     ctx.assume("negotiation threads are parked in user handlers (EVT_ASYNC_OPS before the reading, EVT_ACSE_SENT after the decision); raw requestors on loopback",
                "stress runs: arrivals staggered by up to 250 ms, associations held 25-75 ms, established count sampled every 0.5 ms and at every ESTABLISHED/RELEASED/ABORTED notification")
     return ctx.finish(rule="one witness history per reachable state of AcceptLimit.tla (4 requests, Max 2, one server restarted once; 3 requests, Max 1, two servers; thorough: also 5 requests, Max 3), sampled with preference for histories with rejections / overlapping readings; plus stress runs")
